@@ -535,7 +535,14 @@ pub fn random_table(rng: &mut Rng) -> (Vec<Entry>, &'static str) {
                     break;
                 }
                 dat += if rng.chance(1, 4) { -1 } else { 1 };
-                let m = if half == 0 { 1 } else { 7 };
+                // ITU-R TF.460 allows the end of any month, March and September as second
+                // preference: one hypothetical entry in three takes effect on 1 Apr / 1 Oct
+                let m = match (half, rng.chance(1, 3)) {
+                    (0, false) => 1,
+                    (0, true) => 4,
+                    (_, false) => 7,
+                    (_, true) => 10,
+                };
                 t.push((ntp_seconds_of_date(y, m, 1), dat as u8));
             }
             (t, "future")
